@@ -322,7 +322,7 @@ def dispatch(args):
 def run(chk):
     quick = chk.tier == 'quick'
     P = (chk.prop, chk.tier)
-    N = 3 if quick else 6
+    N = 3 if quick else 8
     cases = []
     for new_len in range(0, N + 1):
         cases.append(P + (None, new_len))
